@@ -3,6 +3,7 @@ import KV.Acyclic
 import KV.Generated.Orders
 import KV.Refuse
 import KV.Accept
+import KV.Generated.SetLoop
 /-! # C09 — unsatisfiable graphs are refused, satisfiable ones accepted, never mis-generated
 
 Property statements only. -/
@@ -113,5 +114,13 @@ theorem C09_accept_iff {provs0 : List PSpec} {ret : Nat} {provs : List PSpec} {s
 
 /-- the known deviation, as a theorem about the model: a requested type nobody supplies is refused -/
 theorem C09_identity_refused_witness : (match plan [] 5 with | .error .noInitial => true | _ => false) = true := by decide
+
+/-- the loop that resolves a `kessoku.Set` argument to its `kessoku.Set(...)` call makes progress in every iteration:
+    each case of its type switch either ends the loop (`callExpr` assigned), replaces the expression it looks at, or
+    leaves the function, and there is a default case — no form of expression can keep the generator spinning
+    (regenerated from parser.go; before fix 1ade2f4 there was no default and `(ConfigSet)` / `lib.Set` hung the run) -/
+theorem C09_set_resolution_progresses :
+    Gen.setLoopHasDefault = true ∧
+    (Gen.setLoopCases.all (fun c => c.2 == "assigns callExpr" || c.2 == "assigns currentArg" || c.2 == "returns")) = true := by decide
 
 end C09
